@@ -195,6 +195,7 @@ BIND = collections.OrderedDict([
     ('lambda-star', 'r = lambda *nm, **nmx: nm'), ('kwonly', 'def f(*, nmx, nm=1): return nm'), ('posonly', 'def f(nm, /, nmx): return nm'),
     ('except-group', 'try: pass\nexcept* ValueError as nm: pass'), ('with-paren', 'with (open("a") as nmx, open("b") as nm): pass'),
     ('walrus-in-comp', 'r = [nm for q in [1] if (nm := q)]'), ('match-capture', 'match nm2:\n    case [nm, *xnm]: pass\n    case {"k": nmx}: pass'),
+    ('after-formfeed-line', 'zz = 0\n\x0c\nnm = 1'), ('after-formfeed-in-string', 'zz = "a\x0cb"\nnm = 1'), ('after-ls-in-comment', 'zz = 0  # \u2028\nnm = 1'),
     ('global-assign', 'def g():\n    global nm\n    nm = 1'),
 ])
 
